@@ -398,6 +398,9 @@ def m_opt_as_ref(I, state, frame, bi, t, args, span):
     a = args[0]
     if a[0] == "ref":
         v = av_get(I.load_root(state, a[1]), a[2], I.uni)
+        if v is not None and v[0] == "obj" and a[1] == ("self",):
+            # an evaluator field we do not track by value (e.g. the topological order): keep the location
+            return [(opt(ref(a[1], a[2] + (("v", 1), ("f", 0)))), state)]
         if v is not None and v[0] == "adt" and v[1] == OPTION:
             vs = adt_variants(v)
             out = {}
@@ -1203,9 +1206,20 @@ def m_edge_weight(I, state, frame, bi, t, args, span):
     I.rec.put("edge_weight", I.sitekey(frame, bi, -1),
               dict(fn=frame.body.name, bb=bi, span=span, a=(a[1], a[2]) if a[0] == "key" else (None, frozenset()),
                    b=(b[1], b[2]) if b[0] == "key" else (None, frozenset()), stack=frame.stack))
+    # the edge certainly exists when one key was obtained as a neighbour of the other
+    certain = False
+    if a[0] == "key" and b[0] == "key":
+        for r in a[2]:
+            if isinstance(r, tuple) and r[0] == "nbr" and r[1] == b[1] and r[2] == "Incoming" and b[1] is not None:
+                certain = True
+        for r in b[2]:
+            if isinstance(r, tuple) and r[0] == "nbr" and r[1] == a[1] and r[2] == "Outgoing" and a[1] is not None:
+                certain = True
+        if "edge_b" in role_tags(b) and "edge_a" in role_tags(a):
+            certain = True
     if er[1] is None or er[2] is None:
-        return [(opt(TOP), state)]
-    return [(opt(ref(er, ())), state)]
+        return [((some(TOP) if certain else opt(TOP)), state)]
+    return [((some(ref(er, ())) if certain else opt(ref(er, ()))), state)]
 
 
 @model("petgraph::graphmap::GraphMap::<N, E, Ty>::remove_node")
